@@ -5,11 +5,11 @@ func init() {
 	const dbgo = "dnsserver/db.go"
 	addVariants(
 		variant{Name: "c12-key-without-qclass", Props: []string{"C12"}, Expect: []string{"C12.key|(*dnsserver.FBDNSDB).ServeDNSWithRCODE|key-depends-on|qclass"},
-			Edits: []edit{{hgo, "fmt.Sprintf(\"%.3d%.3d%.3d%s\", loc.LocID, state.QType(), state.QClass(), state.Name())", "fmt.Sprintf(\"%.3d%.3d%s\", loc.LocID, state.QType(), state.Name())"}}},
+			Edits: []edit{{hgo, "fmt.Sprintf(\"%.3d%.5d%.5d%s\", loc.LocID, state.QType(), state.QClass(), state.Name())", "fmt.Sprintf(\"%.3d%.5d%s\", loc.LocID, state.QType(), state.Name())"}}},
 		variant{Name: "c12-key-original-case", Props: []string{"C12"}, Expect: []string{"C12.key|(*dnsserver.FBDNSDB).ServeDNSWithRCODE|key-depends-on|lowercased-name", "C12.key|(*dnsserver.FBDNSDB).ServeDNSWithRCODE|key-case-insensitive"},
 			Edits: []edit{{hgo, "state.QType(), state.QClass(), state.Name())", "state.QType(), state.QClass(), state.QName())"}}},
 		variant{Name: "c12-key-without-location", Props: []string{"C12"}, Expect: []string{"C12.key|(*dnsserver.FBDNSDB).ServeDNSWithRCODE|key-depends-on|location-id"},
-			Edits: []edit{{hgo, "fmt.Sprintf(\"%.3d%.3d%.3d%s\", loc.LocID, state.QType()", "fmt.Sprintf(\"%.3d%.3d%.3d%s\", loc.MapID, state.QType()"}}},
+			Edits: []edit{{hgo, "fmt.Sprintf(\"%.3d%.5d%.5d%s\", loc.LocID, state.QType()", "fmt.Sprintf(\"%.3d%.5d%.5d%s\", loc.MapID, state.QType()"}}},
 		variant{Name: "c12-store-live-message", Props: []string{"C12"}, Expect: []string{"C12.copy|(*dnsserver.FBDNSDB).ServeDNSWithRCODE|add#0|stores-a-copy"},
 			Edits: []edit{{hgo, "\t\t\ttimeout = time.Now().Unix() + 1000\n\t\t\th.cacheAdd(generation, cacheKey, cacheEntry{expiration: timeout, response: a.Copy()})", "\t\t\ttimeout = time.Now().Unix() + 1000\n\t\t\th.cacheAdd(generation, cacheKey, cacheEntry{expiration: timeout, response: a})"}}},
 		variant{Name: "c12-hit-serves-shared-message", Props: []string{"C12"}, Expect: []string{"C12.copy|(*dnsserver.FBDNSDB).ServeDNSWithRCODE|hit#"},
@@ -32,6 +32,6 @@ func init() {
 		variant{Name: "c12-no-purge", Props: []string{"C12"}, Expect: []string{"C12.order|(*dnsserver.FBDNSDB).Reload|purge"},
 			Edits: []edit{{dbgo, "\tif h.cacheConfig.Enabled && h.lru != nil {\n\t\th.lru.Purge()\n\t}\n", ""}}},
 		variant{Name: "benign-cachekey-via-local(B8)", Props: []string{"C12"}, Benign: true,
-			Edits: []edit{{hgo, "\t\tcacheKey = fmt.Sprintf(\"%.3d%.3d%.3d%s\", loc.LocID, state.QType(), state.QClass(), state.Name())\n", "\t\tqn := state.Name()\n\t\tkey := fmt.Sprintf(\"%.3d%.3d%.3d\", loc.LocID, state.QType(), state.QClass())\n\t\tcacheKey = key + qn\n"}}},
+			Edits: []edit{{hgo, "\t\tcacheKey = fmt.Sprintf(\"%.3d%.5d%.5d%s\", loc.LocID, state.QType(), state.QClass(), state.Name())\n", "\t\tqn := state.Name()\n\t\tkey := fmt.Sprintf(\"%.3d%.5d%.5d\", loc.LocID, state.QType(), state.QClass())\n\t\tcacheKey = key + qn\n"}}},
 	)
 }
